@@ -1,8 +1,8 @@
 SPECIFICATION MSpec
 CONSTANTS
   Chains = {"A", "B"}
-  MaxSeq = 400
-  MaxH = 1000
+  MaxSeq = 3
+  MaxH = 6
   Amts = {1, 2}
   Big = 5000
   Kinds = {"fwd", "back"}
@@ -14,11 +14,11 @@ CONSTANTS
   Funds = 1000
   Fees = {0, 1}
   WithRotate = TRUE
-  Delay = 0
+  Delay = 1
   LimWhere <- AllLimWhere
   LimitSets <- NoLimits
   SendFrom <- AllSendFrom
-  Depth = 1100
-  UsefulPct = 11
+  Depth = 25
+  UsefulPct = 6
 INVARIANTS Emit
 CHECK_DEADLOCK FALSE
